@@ -463,7 +463,7 @@ func c12Generation(c *Ctx, rule string, serve *ssa.Function, adds []*cacheInsert
 		ls := computeLockset(fn)
 		held := false
 		for p := range ls.At(a.Add) {
-			if strings.HasSuffix(p, ".reloadMu") {
+			if strings.HasSuffix(p, c.reloadMu()) {
 				held = true
 			}
 		}
@@ -503,7 +503,7 @@ func c12Generation(c *Ctx, rule string, serve *ssa.Function, adds []*cacheInsert
 				if pi := paramIndexOfValue(a.Wrapper, pair[1]); pi > 0 {
 					// the load itself must be under the lock
 					for p := range ls.At(u) {
-						if strings.HasSuffix(p, ".reloadMu") {
+						if strings.HasSuffix(p, c.reloadMu()) {
 							genField, genParam = fieldOf(fa), pi
 						}
 					}
@@ -535,7 +535,7 @@ func c12Generation(c *Ctx, rule string, serve *ssa.Function, adds []*cacheInsert
 			ok := false
 			for _, ld := range loadsOfField(acqFn, genField) {
 				for p := range als.At(ld) {
-					if strings.HasSuffix(p, ".reloadMu") {
+					if strings.HasSuffix(p, c.reloadMu()) {
 						for _, nr := range callsTo(acqFn, func(f *types.Func) bool { return f == newReader }) {
 							if als.At(nr)[p] != modeNone {
 								ok = true
@@ -573,7 +573,7 @@ func c12Generation(c *Ctx, rule string, serve *ssa.Function, adds []*cacheInsert
 			for _, st := range sts {
 				w := false
 				for p, m := range rls.At(st) {
-					if strings.HasSuffix(p, ".reloadMu") && m == modeW {
+					if strings.HasSuffix(p, c.reloadMu()) && m == modeW {
 						w = true
 					}
 				}
